@@ -36,7 +36,7 @@ type CertDef struct {
 
 // Op is one step of a shim history.
 type Op struct {
-	// Kind: addkey addcert addhard remove removeall list signers sign signvia oobadd oobaddcert oobremove
+	// Kind: addkey addcert addhard remove removeall list signers sign signvia signheld oobadd oobaddcert oobremove
 	// lapse lock unlock close forward extension plan
 	Kind string
 	Key  string `json:",omitempty"` // pool key name (plain-key target)
@@ -95,6 +95,7 @@ type Trace struct {
 	RefusedLockOps    int // lock / unlock refused by the underlying agent
 	HiddenSeen        int // listings / signers / sign decisions involving a hidden certificate
 	YSSHCAInRing      int
+	HeldSigner        int // signatures asked of a signer kept from an earlier Signers() call
 	HardDecisions     int // add-hardware-certificate acceptance decisions
 	HardAccepted      int
 	FaultsReached     int
@@ -126,7 +127,8 @@ type world struct {
 	pass   string
 	// upLocked mirrors the lock state of the underlying agent (it can lose its lock out of band)
 	upLocked bool
-	dead     bool // the connection to the underlying agent was destroyed by a fault
+	held     []ssh.Signer // what the last successful Signers() call returned (the caller keeps it)
+	dead     bool         // the connection to the underlying agent was destroyed by a fault
 	closed   bool
 	tr       Trace
 
@@ -180,6 +182,15 @@ func keyIDFor(class string, serial uint64, key string) (string, map[string]strin
 	case "ysshcahuge": // a valid KeyID beyond 64 KiB (one long value)
 		a.HW, a.Touch = true, 3
 		a.ReqHost = strings.Repeat("h", 70000)
+	case "casevar": // one required member only under another letter case: not the required member, so not a YSSHCA KeyID
+		a.HW, a.Touch = true, 1
+		ms := a.Members()
+		i := int(serial) % len(ms)
+		if ms[i].Name == "usage" {
+			i = 0
+		}
+		ms[i].Name = strings.ToUpper(ms[i].Name[:1]) + ms[i].Name[1:]
+		return JoinMembers(ms, ""), nil
 	case "missing":
 		ms := a.Members()
 		ms = append(ms[:4:4], ms[5:]...) // drop reqHost
@@ -194,6 +205,14 @@ func keyIDFor(class string, serial uint64, key string) (string, map[string]strin
 		return "", nil
 	}
 	return a.Text(), crit
+}
+
+// ShimCert builds one certificate of the shim generator's shapes outside a history (validity classes
+// current / forever / past / future only).
+func ShimCert(d CertDef) *ssh.Certificate {
+	w := &world{c: ShimCase{Certs: []CertDef{d}}}
+	w.buildCerts(time.Now().Unix())
+	return w.certs[0]
 }
 
 func (w *world) buildCerts(now int64) {
@@ -663,6 +682,7 @@ func (w *world) step(i int, op Op) error {
 	var signers []ssh.Signer
 	var sig *ssh.Signature
 	var reply []byte
+	heldInMemory := false
 	key, keyDesc := w.target(op)
 	data := op.Data
 	if data == nil {
@@ -674,6 +694,41 @@ func (w *world) step(i int, op Op) error {
 			keys, opErr = w.sh.List()
 		case "signers":
 			signers, opErr = w.sh.Signers()
+			if opErr == nil {
+				w.held = signers
+			}
+		case "signheld":
+			// through a signer the caller kept from an earlier Signers() call of this history (none kept:
+			// as signvia, from a fresh call)
+			var hs ssh.Signer
+			for _, s := range w.held {
+				if key != nil && bytes.Equal(s.PublicKey().Marshal(), key.Marshal()) {
+					hs = s
+				}
+			}
+			if hs == nil {
+				signers, opErr = w.sh.Signers()
+				if opErr == nil {
+					w.held = signers
+					opErr = fmt.Errorf("verif: no signer for the target")
+					for _, s := range signers {
+						if key != nil && bytes.Equal(s.PublicKey().Marshal(), key.Marshal()) {
+							hs = s
+						}
+					}
+				}
+			} else {
+				w.tr.HeldSigner++
+				if _, inMem := w.mem[string(key.Marshal())]; inMem {
+					// the kept signer of an in-memory hardware certificate signs with the token's plain key
+					// and names that key, not the certificate: what it does once the certificate has left
+					// its window (or the table) is not part of the statement
+					heldInMemory = true
+				}
+			}
+			if hs != nil {
+				sig, opErr = hs.Sign(rand.Reader, data)
+			}
 		case "sign":
 			// every byte slice handed to the agent is the caller's: overwritten once the call returned
 			d2 := append([]byte{}, data...)
@@ -730,6 +785,9 @@ func (w *world) step(i int, op Op) error {
 			scribble(b2)
 		}
 	})
+	if op.Kind == "signheld" {
+		op.Kind = "signvia" // judged like a signature through a fresh signer: holding a signer changes nothing
+	}
 	if se, stuck := perr.(stuckError); stuck {
 		return Errf("%s on %s: %v", where, keyDesc, se)
 	}
@@ -964,6 +1022,16 @@ func (w *world) step(i int, op Op) error {
 				signFrames++
 			}
 		}
+		if heldInMemory && isCert {
+			// not judged beyond: a signature that does come back verifies under the token key
+			if opErr == nil && sig != nil {
+				if verr := cert.Key.Verify(data, sig); verr != nil {
+					return Errf("%s on %s: signature of the kept signer does not verify under the certificate's key: %v", where, keyDesc, verr)
+				}
+			}
+			w.mem = memAfter
+			return nil
+		}
 		var expectOK, unsure bool
 		var verifyKey ssh.PublicKey = key
 		switch {
@@ -987,7 +1055,10 @@ func (w *world) step(i int, op Op) error {
 		default:
 			expectOK = inRing(blob)
 		}
-		if isCert && !CertValidAt(cert, now) {
+		if heldInMemory {
+			unsure = true
+		}
+		if isCert && !CertValidAt(cert, now) && !heldInMemory {
 			w.tr.PurgedSignRefused++
 			if opErr == nil {
 				return Errf("%s: signing with a certificate outside its validity window succeeded (%s)", where, describeBlob(blob))
